@@ -12,6 +12,9 @@
 //!   ps  [n, pseed, rg, per, t, p]    rg = 0: ironbeam's writer; rg > 0: parquet writer with that max row-group size
 //!   gl  [fmt, h, pat, files, pseed]  files = [[[component..], count]..]; count -1 = a directory
 //!   jf  [k]                          the float k as f64 (|k| < 2^53, exact) through JSONL, CSV, Parquet
+//!   jz  [n, pseed, ext, shards, via, per, t, p]      JSONL to `*.jsonl.<ext>` (codec by extension): write_jsonl_vec and
+//!                                    write_jsonl_par, each file read back whole and streamed in both modes
+//!   cz  [n, pseed, ext, h, shards, via, per, t, p]   the same for CSV
 //!   jb  [hi, lo]                     the finite f64 with bit pattern hi * 2^32 + lo through JSONL, CSV, Parquet
 use ibv::{Emitter, SplitMix64, Tier, drive, ok};
 use ironbeam::io::csv::build_csv_shards;
@@ -382,6 +385,62 @@ fn run(kind: &str, input: &Value) -> Value {
                 exact(read_parquet_vec::<Rec>(&pp).unwrap())
             ]))
         }
+        "jz" | "cz" => {
+            let csv = kind == "cz";
+            let (n, pseed) = (input[0].as_u64().unwrap(), input[1].as_u64().unwrap());
+            let ext = input[2].as_str().unwrap();
+            if ext.is_empty() || !ext.bytes().all(|b| b.is_ascii_alphanumeric() || b == b'.') {
+                return json!(["invalid"]);
+            }
+            let o = usize::from(csv);
+            let h = csv && input[3].as_bool().unwrap();
+            let (shards, via) = (opt_usize(&input[3 + o]), us(&input[4 + o]));
+            let (per, t, p) = (us(&input[5 + o]), us(&input[6 + o]), us(&input[7 + o]));
+            let data = recs(pseed, 0, n);
+            let stem = if csv { "csv" } else { "jsonl" };
+            let (pa, pb) = (sc.p(&format!("seq.{stem}.{ext}")), sc.p(&format!("par.{stem}.{ext}")));
+            let (ca, cb) = if csv {
+                let ca = write_csv_vec(&pa, h, &data).unwrap();
+                let cb = if via == 1 {
+                    from_vec(&Pipeline::default(), data.clone()).write_csv_par(&pb, shards, h).unwrap()
+                } else {
+                    write_csv_par(&pb, &data, shards, h).unwrap()
+                };
+                (ca, cb)
+            } else {
+                let ca = ironbeam::helpers::jsonl::write_jsonl_vec(&pa, &data).unwrap();
+                let cb = if via == 1 {
+                    from_vec(&Pipeline::default(), data.clone()).write_jsonl_par(&pb, shards).unwrap()
+                } else {
+                    write_jsonl_par(&pb, &data, shards).unwrap()
+                };
+                (ca, cb)
+            };
+            let leftover = std::fs::read_dir(&sc.0).unwrap().count() as u64 - 2;
+            let pay = std::cell::Cell::new(true);
+            let show = |v: Vec<Rec>| {
+                let mut ok = true;
+                let ids = ids_of(&v, pseed, &mut ok);
+                if !ok {
+                    pay.set(false);
+                }
+                ids
+            };
+            let mut outs = Vec::new();
+            for path in [&pa, &pb] {
+                let pl = Pipeline::default();
+                if csv {
+                    outs.push(path_outcome(|| read_csv_vec::<Rec>(path, h), &show));
+                    outs.push(path_outcome(|| read_csv_streaming::<Rec>(&pl, path, h, per)?.collect_seq(), &show));
+                    outs.push(path_outcome(|| read_csv_streaming::<Rec>(&pl, path, h, per)?.collect_par(Some(t), Some(p)), &show));
+                } else {
+                    outs.push(path_outcome(|| read_jsonl_vec::<Rec>(path), &show));
+                    outs.push(path_outcome(|| read_jsonl_streaming::<Rec>(&pl, path, per)?.collect_seq(), &show));
+                    outs.push(path_outcome(|| read_jsonl_streaming::<Rec>(&pl, path, per)?.collect_par(Some(t), Some(p)), &show));
+                }
+            }
+            ok(json!([ca, cb, outs, pay.get(), leftover]))
+        }
         _ => json!(["bad-kind"]),
     }
 }
@@ -649,6 +708,34 @@ fn generate(seed: u64, tier: Tier, em: &mut Emitter) {
     for b in bits {
         if f64::from_bits(b).is_finite() {
             em.case("jb", json!([b >> 32, b & 0xFFFF_FFFF]), true, &["float", "float-bits"]);
+        }
+    }
+    // 7. codec dimension: compressed targets (codec chosen by extension) written sequentially and
+    //    in parallel, read back whole and streamed; the decoded records must be the written ones
+    const EXTS: &[&str] = &["gz", "gzip", "zst", "zstd", "bz2", "bzip2", "xz", "GZ", "Gz", "ZST", "Bz2", "XZ", "BZIP2", "gZiP"];
+    let zn: &[u64] = if thorough { &[0, 1, 2, 3, 4, 5, 8, 13, 40] } else { &[0, 1, 2, 3, 5, 9] };
+    for &n in zn {
+        let mut shs = vec![Value::Null, json!(1), json!(2), json!(3), json!(n), json!(n + 1)];
+        if thorough {
+            shs.extend([json!(0), json!(5), json!(1000)]);
+        }
+        for sh in &shs {
+            for ext in EXTS {
+                let small = sh.as_u64().is_some_and(|s| s <= 8);
+                let vias: Vec<u64> = if thorough { vec![0, 1] } else { vec![rng.below(2)] };
+                for via in vias {
+                    let nt = n >= 2 && sh.as_u64().is_none_or(|s| s >= 2);
+                    let per = *rng.pick(&sizes(n));
+                    let (t, p) = tp(&mut rng, n);
+                    em.case("jz", json!([n, rng.below(1 << 20), ext, sh, via, per, t, p]), nt, &["codec", "jsonl-codec"]);
+                    let h = rng.chance(1, 2);
+                    let cvia = if small { via } else { 0 };
+                    em.case("cz", json!([n, rng.below(1 << 20), ext, h, sh, cvia, per, t, p]), nt, &["codec", "csv-codec"]);
+                    if thorough {
+                        em.case("cz", json!([n, rng.below(1 << 20), ext, !h, sh, cvia, per, t, p]), nt, &["codec", "csv-codec"]);
+                    }
+                }
+            }
         }
     }
 }
